@@ -258,7 +258,13 @@ fn serde_case<K: Kern<D>, const D: usize>(cx: &mut Ctx, r: &mut Rng, idx: usize)
     if pts.len() < D + 1 {
         return;
     }
-    let input = cx.inputs(&pts, true);
+    let mut input = cx.inputs(&pts, true);
+    // signed zeros: every zero coordinate of some vertices is written as -0.0
+    for (i, v) in input.iter_mut().enumerate() {
+        if (i + idx) % 3 == 0 {
+            v.off = NEG_ZERO_MARK;
+        }
+    }
     let Some(mut dt) = op_construct::<K, D>(&mut cx.tr, 0, Ctor::WithGuarantee, g, Opts::default_like(), &input) else { return };
     // key gaps: remove a vertex / flip before serialising
     let _ = churn(cx, r, &mut dt, idx / 2);
@@ -1112,5 +1118,214 @@ pub fn drive_failpoints(cx: &mut Ctx) {
             let k = (i / 2) % 2;
             dispatch!(d, k, failpoint_case(cx, &mut r, i));
         }
+    }
+}
+
+// ---------------------------------------------------------------------------------------
+// C04 / C08: long silent flip walks (only the walked state enters the trace, through `Adopt`)
+// ---------------------------------------------------------------------------------------
+/// apply up to `want` geometry-preserving k=2 / k=3 flips (checked with the library's own Level 3 on a
+/// clone - steering only); returns the number applied
+fn silent_walk<K: Kern<D>, const D: usize>(dt: &mut Dt<K, D>, r: &mut Rng, want: usize) -> usize {
+    let mut okc = 0;
+    let mut tries = 0;
+    while okc < want && tries < 12 * want {
+        tries += 1;
+        let cks: Vec<CellKey> = dt.tds().cell_keys().collect();
+        if cks.is_empty() {
+            break;
+        }
+        let ck = *r.pick(&cks);
+        let use_k3 = D >= 3 && r.chance(1, 2);
+        let (i, j) = (r.below(D + 1) as u8, r.below(D + 1) as u8);
+        if use_k3 && i == j {
+            continue;
+        }
+        let mut probe = dt.clone();
+        let ok = if use_k3 {
+            probe.flip_k3(delaunay::core::algorithms::flips::RidgeHandle::new(ck, i, j)).is_ok()
+        } else {
+            probe.flip_k2(delaunay::core::facet::FacetHandle::new(ck, i)).is_ok()
+        };
+        if ok && probe.as_triangulation().is_valid().is_ok() {
+            *dt = probe;
+            okc += 1;
+        }
+    }
+    okc
+}
+
+fn walk_case<K: Kern<D>, const D: usize>(cx: &mut Ctx, r: &mut Rng, idx: usize, for_repair: bool) {
+    let g = GUARANTEES[idx % 3];
+    let hi = max_coord(D);
+    cx.start_case(format!("{} walk D={D} k={} i={idx}", if for_repair { "C08" } else { "C04" }, K::NAME));
+    let n = match D {
+        2 => 8 + r.below(5),
+        3 => 8 + r.below(5),
+        _ => D + 3 + r.below(3),
+    };
+    let pts = match idx % 4 {
+        0 => degenerate_points(r, D, n, hi),
+        1 => random_points(r, D, n, hi),
+        2 => {
+            // sub-grid: many coplanar / cospherical subsets
+            let g3 = grid(D, 3);
+            let mut ix: Vec<usize> = (0..g3.len()).collect();
+            r.shuffle(&mut ix);
+            ix.into_iter().take(n.min(g3.len())).map(|i| g3[i].clone()).collect()
+        }
+        _ => gp_points(r, D, n.min(9), hi),
+    };
+    if pts.len() < D + 2 {
+        return;
+    }
+    let s = cx.tr.s;
+    let input = cx.inputs(&pts, false);
+    let vs: Vec<_> = input.iter().map(|v| v.vertex::<D>(s)).collect();
+    let Ok(mut dt) = Dt::<K, D>::with_topology_guarantee(&K::default(), &vs, g) else { return };
+    if dt.vertices().any(|(_, v)| cx.tr.coord_proj(v.point().coords()).1) {
+        return; // perturbed vertices: keep the exact oracle fully decisive
+    }
+    let want = if for_repair { 10 + r.below(35) } else { 1 + r.below(8) };
+    let done = silent_walk(&mut dt, r, want);
+    if done == 0 {
+        return;
+    }
+    let post = cx.tr.project(&dt);
+    cx.tr.emit("Adopt", 0, serde_json::json!({"D": D, "why": format!("state after {done} silent flips")}), serde_json::json!({}), Some(post), false);
+    op_verdicts(&mut cx.tr, 0, &dt, 8);
+    if for_repair {
+        let mut c = op_clone(&mut cx.tr, 0, 1, &dt);
+        if !op_repair(&mut cx.tr, 0, &mut dt, false, None, 8) {
+            return;
+        }
+        op_verdicts(&mut cx.tr, 0, &dt, 8);
+        op_repair(&mut cx.tr, 1, &mut c, true, None, 8);
+    }
+}
+
+pub fn drive_verdictwalk(cx: &mut Ctx) {
+    // exhaustive two-flip neighbourhoods of tiny degenerate point sets
+    let trees = if cx.thorough { 160 } else { 36 };
+    for d in 2..=3usize {
+        for i in 0..trees {
+            let mut r = Rng::new(cx.seed * 2_900_017 + (d * 100_000 + i) as u64);
+            if !cx.mine() {
+                continue;
+            }
+            match (d, i % 2) {
+                (2, 0) => verdict_tree::<FastKernel<f64>, 2>(cx, &mut r, i),
+                (2, _) => verdict_tree::<RobustKernel<f64>, 2>(cx, &mut r, i),
+                (_, 0) => verdict_tree::<FastKernel<f64>, 3>(cx, &mut r, i),
+                (_, _) => verdict_tree::<RobustKernel<f64>, 3>(cx, &mut r, i),
+            }
+        }
+    }
+    let per_dim = if cx.thorough { 800 } else { 150 };
+    for d in 2..=4usize {
+        let n = if d == 3 { per_dim } else { per_dim / 3 };
+        for i in 0..n {
+            let mut r = Rng::new(cx.seed * 2_100_011 + (d * 100_000 + i) as u64);
+            if !cx.mine() {
+                continue;
+            }
+            let k = (i / 4) % 2;
+            match (d, k) {
+                (2, 0) => walk_case::<FastKernel<f64>, 2>(cx, &mut r, i, false),
+                (2, _) => walk_case::<RobustKernel<f64>, 2>(cx, &mut r, i, false),
+                (3, 0) => walk_case::<FastKernel<f64>, 3>(cx, &mut r, i, false),
+                (3, _) => walk_case::<RobustKernel<f64>, 3>(cx, &mut r, i, false),
+                (_, 0) => walk_case::<FastKernel<f64>, 4>(cx, &mut r, i, false),
+                (_, _) => walk_case::<RobustKernel<f64>, 4>(cx, &mut r, i, false),
+            }
+        }
+    }
+}
+
+pub fn drive_repairwalk(cx: &mut Ctx) {
+    let per_dim = if cx.thorough { 900 } else { 200 };
+    for d in 2..=4usize {
+        let n = if d == 3 { per_dim } else { per_dim / 4 };
+        for i in 0..n {
+            let mut r = Rng::new(cx.seed * 2_300_017 + (d * 100_000 + i) as u64);
+            if !cx.mine() {
+                continue;
+            }
+            let k = (i / 4) % 2;
+            match (d, k) {
+                (2, 0) => walk_case::<FastKernel<f64>, 2>(cx, &mut r, i, true),
+                (2, _) => walk_case::<RobustKernel<f64>, 2>(cx, &mut r, i, true),
+                (3, 0) => walk_case::<FastKernel<f64>, 3>(cx, &mut r, i, true),
+                (3, _) => walk_case::<RobustKernel<f64>, 3>(cx, &mut r, i, true),
+                (_, 0) => walk_case::<FastKernel<f64>, 4>(cx, &mut r, i, true),
+                (_, _) => walk_case::<RobustKernel<f64>, 4>(cx, &mut r, i, true),
+            }
+        }
+    }
+}
+
+/// C04: EVERY triangulation within two legal flips of the constructed one, for tiny point sets on the
+/// {0,1,2}^D grid (full of coplanar / cospherical subsets); Verdicts on each
+fn verdict_tree<K: Kern<D>, const D: usize>(cx: &mut Ctx, r: &mut Rng, idx: usize) {
+    let g = GUARANTEES[idx % 3];
+    let g3 = grid(D, 3);
+    let mut ix: Vec<usize> = (0..g3.len()).collect();
+    r.shuffle(&mut ix);
+    let n = D + 2 + r.below(3);
+    let mut pts: Vec<Vec<i64>> = ix.into_iter().take(n).map(|i| g3[i].clone()).collect();
+    if D == 3 && idx == 0 {
+        // a fixed configuration in which a violating facet with a degenerate flip coexists with genuinely
+        // flippable violations two flips away from the Delaunay triangulation
+        pts = vec![vec![2, 1, 0], vec![0, 0, 2], vec![2, 0, 1], vec![0, 1, 1], vec![2, 2, 1], vec![1, 0, 1]];
+    }
+    cx.start_case(format!("C04 tree D={D} k={} i={idx}", K::NAME));
+    let s = cx.tr.s;
+    let input = cx.inputs(&pts, false);
+    let vs: Vec<_> = input.iter().map(|v| v.vertex::<D>(s)).collect();
+    let Ok(base) = Dt::<K, D>::with_topology_guarantee(&K::default(), &vs, g) else { return };
+    if base.vertices().any(|(_, v)| cx.tr.coord_proj(v.point().coords()).1) {
+        return;
+    }
+    let mut seen: Vec<Vec<Vec<i64>>> = Vec::new();
+    let mut frontier: Vec<Dt<K, D>> = vec![base];
+    let cap = if cx.thorough { 400 } else { 120 };
+    for depth in 0..=2 {
+        let mut next: Vec<Dt<K, D>> = Vec::new();
+        for dt in &frontier {
+            let key = cells_as_ids(&mut cx.tr, dt);
+            if seen.contains(&key) {
+                continue;
+            }
+            seen.push(key);
+            if seen.len() > cap {
+                return;
+            }
+            let post = cx.tr.project(dt);
+            cx.tr.emit("Adopt", 0, serde_json::json!({"D": D, "why": format!("{depth} legal flips from the constructed triangulation")}), serde_json::json!({}), Some(post), false);
+            if !op_verdicts(&mut cx.tr, 0, dt, 8) {
+                return;
+            }
+            if depth == 2 {
+                continue;
+            }
+            let cks: Vec<CellKey> = dt.tds().cell_keys().collect();
+            for ck in cks {
+                for i in 0..=(D as u8) {
+                    let mut p = dt.clone();
+                    if p.flip_k2(delaunay::core::facet::FacetHandle::new(ck, i)).is_ok() && p.as_triangulation().is_valid().is_ok() {
+                        next.push(p);
+                    }
+                    if D >= 3 {
+                        for j in (i + 1)..=(D as u8) {
+                            let mut p = dt.clone();
+                            if p.flip_k3(delaunay::core::algorithms::flips::RidgeHandle::new(ck, i, j)).is_ok() && p.as_triangulation().is_valid().is_ok() {
+                                next.push(p);
+                            }
+                        }
+                    }
+                }
+            }
+        }
+        frontier = next;
     }
 }
